@@ -148,6 +148,10 @@ class Exec:
         self.qtimeout = int(opts.get('qtimeout', 60)) * 1000
         self.overrides = opts.get('overrides', {})
         self.expect_panic = bool(opts.get('expect_panic'))
+        self.affine = None
+        if opts.get('affine'):
+            import affine
+            self.affine = affine.Normalizer()
         self.pinned = None        # concrete replay of nondets (translator validation)
         self.stats = dict(paths=0, instrs=0, queries=0, solver_s=0.0, obligations=0, discharged=0,
                           inconclusive=0, cuts=0)
@@ -246,6 +250,12 @@ class Exec:
             return False
         if self.spec:
             raise SpecFail()
+        if self.affine is not None:
+            cond = z3.simplify(self.affine.simplify(cond))
+            if z3.is_true(cond):
+                return True
+            if z3.is_false(cond):
+                return False
         if self.lenient:
             raise Unsupported('symbolic branch in init')
         if self.dpos < len(self.decisions):
@@ -357,8 +367,13 @@ class Exec:
             self.violation(kind, where, msg, self.model_or_none())
             raise PathEnd('violated', msg)
         cond = z3.simplify(cond)
+        if self.affine is not None and not z3.is_true(cond):
+            cond = z3.simplify(self.affine.simplify(cond))
         if z3.is_true(cond):
             self.stats['discharged'] += 1
+            if len(self.samples) < 6:
+                self.samples.append({'obligation': kind, 'at': where, 'msg': msg, 'verdict': 'valid after simplification',
+                                     'path_decisions': len(self.decisions)})
             return
         neg = z3.Not(cond)
         r = self.check(neg)
